@@ -15,7 +15,7 @@ import (
 	"github.com/google/inverting-proxy/zz_verif/vx"
 )
 
-var prop = flag.String("prop", "C04", "C01|C02|C04|C07|C08|C09|C20")
+var prop = flag.String("prop", "C04", "C01|C02|C04|C05|C07|C08|C09|C20")
 
 func main() {
 	flag.Parse()
@@ -43,6 +43,8 @@ func scenarios(tier string) []vx.Scenario {
 				c04Scenario([]listReply{{ids: []string{"a"}}, {ids: []string{"b", "c"}}}, nil, 2, false))
 		}
 		return out
+	case "C05":
+		return c05Scenarios(th)
 	case "C08":
 		return c08Scenarios(th)
 	case "C09":
@@ -447,6 +449,97 @@ func c08Scenarios(th bool) []vx.Scenario {
 		out = append(out, c08Scenario(strings.Repeat("E", 13)+"SS"+"EF", jit[jn], jn))
 		if th {
 			out = append(out, c08Scenario(strings.Repeat("F", 70)+"S"+"F", jit[jn], jn))
+		}
+	}
+	return out
+}
+
+// ---------------- C05: streaming through the whole agent ----------------
+
+// c05Scenario: the scripted backend produces chunk i of its response only after the proxy has seen
+// chunk i-1 in the upload; an agent that holds flushed bytes back (in the reverse proxy, the shim
+// script injection, the banner, the session handler or the response forwarder) leaves the backend
+// waiting and the execution ends with the chunk not delivered.
+func c05Scenario(flags []string, ctype string, chunks []string, pb int) vx.Scenario {
+	var sizes []int
+	for _, c := range chunks {
+		sizes = append(sizes, len(c))
+	}
+	name := fmt.Sprintf("c05/agent %v %s chunks=%v", flags, ctype, sizes)
+	return vx.Scenario{Name: name, PB: pb, Delay: true, Single: pb == 0, MaxSteps: 100000, MaxTime: time.Minute,
+		Setup: func(s *vs.Sched) func(*vs.Result) vx.Exec {
+			w := newWorld(s)
+			w.lists = []listReply{{ids: []string{"a"}}}
+			w.fetch["a"] = &fetchPlan{req: "GET /p/a HTTP/1.1\r\nHost: client.example\r\nX-Tok: a\r\nAccept: text/html\r\nSec-Fetch-Dest: iframe\r\n\r\n"}
+			w.backend["a"] = &backendPlan{kind: "lockstep", chunks: chunks, header: http.Header{"Content-Type": {ctype}}}
+			w.startAgent(flags...)
+			return func(r *vs.Result) vx.Exec {
+				var x vx.Exec
+				baseViolations(r, &x)
+				u := w.uploadFor("a")
+				got := ""
+				if u != nil {
+					got = string(u.raw)
+				}
+				delivered := 0
+				for _, c := range chunks {
+					// the last 11 bytes: the serialiser's one-byte probe may put the very first byte of the
+					// body into an HTTP chunk of its own
+					if strings.Contains(got, c[len(c)-11:]) {
+						delivered++
+					}
+				}
+				x.Obs = fmt.Sprintf("%d of %d chunks delivered, upload done=%v", delivered, len(chunks), u != nil && u.done)
+				if delivered < len(chunks) && len(x.Violations) == 0 {
+					x.Violations = append(x.Violations, fmt.Sprintf("STALL: the backend has flushed chunk %d (%d bytes) of its %s response and waits for the proxy to see it, but the agent (%v) only relayed %d of %d chunks and nothing more will happen", w.flushed, len(chunks[delivered]), ctype, flags, delivered, len(chunks)))
+				} else if (u == nil || !u.done) && len(x.Violations) == 0 && !r.Horizon {
+					x.Violations = append(x.Violations, "UNFINISHED: all chunks were relayed but the upload never ended")
+				}
+				return x
+			}
+		}}
+}
+
+func c05Scenarios(th bool) []vx.Scenario {
+	mk := func(tag string, n int) string {
+		pad := n - 12
+		if pad < 0 {
+			pad = 0
+		}
+		return strings.Repeat("x", pad) + fmt.Sprintf("<<chunk-%s>>", tag)[:12]
+	}
+	html := func(sizes ...int) []string {
+		var c []string
+		for i, n := range sizes {
+			c = append(c, mk(fmt.Sprintf("%03d", i), n))
+		}
+		return c
+	}
+	withHead := func(sizes ...int) []string {
+		c := html(sizes...)
+		c[0] = "<html><head></head>" + c[0]
+		return c
+	}
+	flagSets := [][]string{
+		nil,
+		{"--shim-websockets", "--shim-path=websocket-shim"},
+		{"--session-cookie-name=sess"},
+		{"--inject-banner=<b>banner</b>"},
+		{"--shim-websockets", "--shim-path=websocket-shim", "--session-cookie-name=sess", "--inject-banner=<b>banner</b>", "--forward-user-id"},
+	}
+	var out []vx.Scenario
+	for _, fl := range flagSets {
+		for _, ct := range []string{"text/html; charset=utf-8", "application/json", "text/event-stream"} {
+			for _, ch := range [][]string{html(12, 12, 12), html(100, 2000, 12), withHead(50, 12, 5000), html(1024, 12), html(1023, 12, 12), html(40000, 12)} {
+				pb := 0
+				if len(ch[0]) < 200 && len(fl) <= 2 {
+					pb = 1
+				}
+				if !th && ct == "text/event-stream" && len(ch) == 2 {
+					continue
+				}
+				out = append(out, c05Scenario(fl, ct, ch, pb))
+			}
 		}
 	}
 	return out
